@@ -9,11 +9,17 @@ REGEXES = ["CONTROL_CHARS_RE", "PROTOCOL_RE", "SLASH_SQUEEZE_RE", "ASCII_RE", "L
 
 
 def pre(u, default_protocol):
-    """cleaning + ensure_protocol: the url whose resource must be preserved."""
+    """cleaning + protocol: the url whose resource must be preserved.  Written out here (control characters and C0
+    / C1 ranges as documented, then the documented protocol rule) so that the expectation does not go through the
+    library's own ensure_protocol."""
     import re
-    from ural.patterns import CONTROL_CHARS_RE
-    from ural.ensure_protocol import ensure_protocol
-    return ensure_protocol(CONTROL_CHARS_RE.sub("", u).strip(), default_protocol)
+    c = re.sub(r"[\x00-\x1f\x7f-\x9f]", "", u).strip()
+    p = default_protocol.rstrip(":/")
+    if not re.match(r"^[a-zA-Z]{0,64}:?//", c):
+        return p + "://" + c
+    if c.startswith("//"):
+        return p + ":" + c
+    return c
 
 
 def run(res, tier, rng):
